@@ -48,6 +48,17 @@ def families(env):
             mgr.Ite(p, x, a), mgr.Ite(q, x, b)))
         fam('ite_' + nm, sort, lambda x, a, b, p, q: mgr.Ite(
             p, mgr.Ite(q, x, a), mgr.Ite(q, b, x)))
+    # directly nested n-ary operators (the simplifier flattens them)
+    fam('and_flat', T.BOOL, lambda x, a, b, p, q: mgr.And(mgr.And(x, a),
+                                                           mgr.And(b, x)))
+    fam('or_flat', T.BOOL, lambda x, a, b, p, q: mgr.Or(mgr.Or(x, a),
+                                                         mgr.Or(b, x)))
+    fam('plus_flat_int', T.INT, lambda x, a, b, p, q: mgr.Plus(
+        mgr.Plus(x, a), mgr.Plus(b, x)))
+    fam('times_flat_real', T.REAL, lambda x, a, b, p, q: mgr.Times(
+        mgr.Times(x, a), mgr.Times(b, x)))
+    fam('bvadd_flat', BV8, lambda x, a, b, p, q: mgr.BVAdd(
+        mgr.BVAdd(x, a), mgr.BVAdd(b, x)))
     for op in ('BVAdd', 'BVAnd', 'BVOr', 'BVXor', 'BVMul', 'BVSub',
                'BVLShl', 'BVLShr', 'BVUDiv'):
         fam(op.lower(), BV8, lambda x, a, b, p, q, op=op: getattr(mgr, op)(
@@ -120,6 +131,12 @@ def chain_step(mgr, name, sort, x, a, p):
         import pysmt.typing as T
         return mgr.Select(mgr.Symbol('c20_arr2', T.ArrayType(T.INT, T.INT)),
                           mgr.Plus(x, a))
+    if name == 'and_flat':
+        return mgr.And(x, a)
+    if name == 'or_flat':
+        return mgr.Or(x, a)
+    if name == 'bvadd_flat':
+        return mgr.BVAdd(x, a)
     for op in ('BVAdd', 'BVAnd', 'BVOr', 'BVXor', 'BVMul', 'BVSub', 'BVLShl',
                'BVLShr', 'BVUDiv'):
         if name == op.lower():
@@ -203,14 +220,32 @@ class CodeCounter(object):
             raise WorkBudgetExceeded(self.work)
         return None
 
-    def start(self, budget):
+    def start(self, budget, cpu_s=None):
+        """budget: function entries inside pysmt; cpu_s: CPU seconds of
+        this process (ITIMER_VIRTUAL: consumed work, not wall-clock - work
+        done inside C calls such as list.extend on an exponentially long
+        argument list is invisible to the entry counter)."""
         self.work = self.walks = 0
         self.counter.n = 0
         self.budget = budget
         self.active = True
+        if cpu_s:
+            import signal
+
+            def on_cpu(signum, frame):
+                self.active = False
+                raise WorkBudgetExceeded('%d entries and %d s of CPU' % (
+                    self.work, cpu_s))
+            signal.signal(signal.SIGVTALRM, on_cpu)
+            signal.setitimer(signal.ITIMER_VIRTUAL, cpu_s)
+            self.armed = True
 
     def stop(self):
         self.active = False
+        if getattr(self, 'armed', False):
+            import signal
+            signal.setitimer(signal.ITIMER_VIRTUAL, 0)
+            self.armed = False
         return self.work, self.walks
 
 
@@ -341,6 +376,9 @@ def run(rep):
     import pysmt.smtlib.printers as SP
     import pysmt.smtlib.parser.parser as PP
     M.NODE_MONITOR.install()
+    # a runaway procedure must not take the machine down
+    import resource
+    resource.setrlimit(resource.RLIMIT_AS, (6 * 2 ** 30, 6 * 2 ** 30))
     env = common.fresh_env()
     fams = sorted(families(env))
     idx = 0
@@ -375,7 +413,7 @@ def run(rep):
                     else:
                         f = build_family(e2, fam, n, diamond=True)
                         size = dag_size(f)
-                        cc.start(3000 * size + 50000)
+                        cc.start(3000 * size + 50000, cpu_s=60)
                         try:
                             k, _ = P2[proc](f)
                         finally:
@@ -441,7 +479,7 @@ def run(rep):
             depth = DEEP
             quadratic = False
             if (proc in ('simplify', 'nnf', 'prenex', 'aig') and
-                    fam in ('and', 'or', 'not')) or (
+                    fam in ('and', 'or', 'not', 'and_flat', 'or_flat')) or (
                     proc in ('simplify', 'times_distributor') and
                     fam.split('_')[0] in ('plus', 'minus', 'times')):
                 # flattening of nested n-ary operators is quadratic in the
@@ -457,7 +495,7 @@ def run(rep):
                 else:
                     f = build_family(e3, fam, depth, diamond=False)
                     cc.start(None if quadratic
-                             else 3000 * (4 * depth + 10) + 50000)
+                             else 3000 * (4 * depth + 10) + 50000, cpu_s=240)
                     try:
                         P3[proc](f)
                     finally:
